@@ -54,7 +54,7 @@ def mc(res, work):
     os.makedirs(d, exist_ok=True)
     mod = os.path.join(d, "MC.tla")
     with open(mod, "w") as f:
-        f.write("---- MODULE MC ----\nEXTENDS Observer\nScen == {[ne |-> 2, nd |-> 2, lineage |-> <<{1}, {1, 2}>>, held |-> {2}, ordered |-> TRUE]}\n"
+        f.write("---- MODULE MC ----\nEXTENDS Observer\nScen == {[ne |-> 2, nd |-> 2, lineage |-> <<{1}, {1, 2}>>, held |-> {2}, ordered |-> TRUE, sink |-> <<1, 1>>]}\n"
                 "Small == Len(delivered) <= 2 /\\ Len(fired) <= 2\n====\n")
     for inv in ("NoDuplicate", "InOrder", "CbSafe", "RaisedNeverFires", "FiredOnce"):
         cfg = os.path.join(d, "MC_%s.cfg" % inv)
@@ -85,7 +85,7 @@ def run(tier, seed, mutant=None, only_validate=False):
             raise core.MachineryError("composite driver failed: " + se[-1500:])
         with open(os.path.join(out, "runs.json")) as f:
             runs = json.load(f)
-        traces = [{k: r[k] for k in ("id", "ne", "nd", "lineage", "held", "ordered", "ev")} for r in runs]
+        traces = [{k: r[k] for k in ("id", "ne", "nd", "lineage", "held", "ordered", "ev", "sink") if k in r} for r in runs]
         reached, broken = validate(work, traces)
         res.traces = len(runs)
         res.evaluations = sum(len(r["ev"]) for r in runs)
